@@ -23,7 +23,8 @@ import vlib, relrun, relational as R
 
 WAL_FULL = [{"k": "exec", "sql": "PRAGMA wal=ON"}, {"k": "exec", "sql": "PRAGMA synchronous=FULL"}]
 VIEW_CLASS = {"scan": "scan", "count": "count", "pk1": "pk_index", "pk2": "pk_index", "pk3": "pk_index", "range": "pk_range",
-              "ua1": "unique_index", "ua2": "unique_index", "anull": "scan_filter", "b0": "secondary_index", "b1": "secondary_index"}
+              "ua1": "unique_index", "ua2": "unique_index", "anull": "scan_filter", "b0": "secondary_index", "b1": "secondary_index",
+              "arange": "unique_index", "brange": "secondary_index"}
 
 
 def work_ops(hist):
